@@ -185,6 +185,8 @@ GRAD_MODE = "no_grad"
 
 def evaluate(cc: Any, X: np.ndarray | None) -> torch.Tensor:
     x = None if X is None else torch.from_numpy(X)
+    if x is not None and x.is_floating_point():
+        x = x.to(torch.get_default_dtype())  # real-valued inputs in the precision of the model
     if GRAD_MODE == "enabled":
         with torch.enable_grad():
             y = cc() if x is None else cc(x)
